@@ -459,6 +459,11 @@ Definition known_rx (pool : rpool) (r : regex) : bool :=
                        | _ => false
                        end) (r_inputs r).
 
+(** the same over the whole pool (the dump's pool holds exactly the within-word regexes in use) *)
+Definition known_rx_all (pool : rpool) (r : regex) : bool :=
+  existsb rinput_raw_unsafe (r_inputs r)
+  || existsb (fun q : N * regex => existsb rinput_raw_unsafe (r_inputs (snd q))) pool.
+
 (** ** Well-formedness of an automaton as the dump gives it (checked on every run on Rust's MIN):
     every transition's input id is in the pool, the accepting states are listed once, every
     within-word automaton a transition names is in the pool and has no within-word transitions. *)
@@ -486,3 +491,50 @@ Definition wf_cdfa (c : cdfa) : bool :=
                     end
                 | _ => true
                 end) (iter_transitions (c_main c)).
+
+(** ** Well-formedness of a regex arena as the dump gives it (checked on every run on Rust's REGEX
+    stage): the within-word regexes contain no within-word node, and every position has its leaf
+    node, of the kind of its input, reachable from the root through [Cat] / [Or] nodes only. *)
+Definition rnode_leaf_eqb (n : rnode) (want : rnode) : bool :=
+  match n, want with
+  | RTerm a, RTerm b | RNt a, RNt b | RCommand a, RCommand b | RSubword a, RSubword b => a =? b
+  | _, _ => false
+  end.
+
+Definition rx_leaf_for (inp : rinput) (pos : N) : rnode :=
+  match inp with
+  | RLit _ _ => RTerm pos
+  | RNonterm _ => RNt pos
+  | RCmd _ => RCommand pos
+  | RSub _ => RSubword pos
+  end.
+
+Fixpoint rx_reach (fuel : nat) (r : regex) (n : N) : list N :=
+  match fuel with
+  | O => []
+  | S f =>
+      n :: match nthN (r_nodes r) n with
+           | Some (RCat l) | Some (ROr l) => flat_map (rx_reach f r) l
+           | _ => []
+           end
+  end.
+
+Fixpoint rx_cover_from (r : regex) (reach : list N) (pos : N) (inputs : list rinput) : bool :=
+  match inputs with
+  | [] => true
+  | inp :: rest =>
+      existsb (fun m => match nthN (r_nodes r) m with
+                        | Some n => rnode_leaf_eqb n (rx_leaf_for inp pos)
+                        | None => false
+                        end) reach
+      && rx_cover_from r reach (pos + 1) rest
+  end.
+
+Definition rx_cover_b (r : regex) : bool :=
+  rx_cover_from r (rx_reach (S (List.length (r_nodes r))) r (r_root r)) 0 (r_inputs r).
+
+Definition rx_flat_b (r : regex) : bool :=
+  forallb (fun n => match n with RSubword _ => false | _ => true end) (r_nodes r).
+
+Definition rx_wf_b (pool : rpool) (r : regex) : bool :=
+  rx_cover_b r && forallb (fun q : N * regex => rx_flat_b (snd q) && rx_cover_b (snd q)) pool.
